@@ -192,3 +192,53 @@ def suite_huge_publish(report, tier, seed, prop="C16"):
                                        + (" and the fixed header cannot express that length" if rl > (1 << 28) - 1 else ""), [r, "# impl: " + a]))
     report.obligation("corr:huge-publish", "correspondence", corr_ok, f"{len(reqs)} size validations with payloads up to 2^33 bytes")
     report.obligation("mon:huge-publish", "monitor", mon_ok, "accepted => remaining length expressible and total size within the server's maximum")
+
+
+def suite_huge_subscribe(report, tier, seed, prop="C16"):
+    """SUBSCRIBE / UNSUBSCRIBE packets whose remaining length no 32-bit integer holds (4 GiB of topic filters): the length
+    functions must refuse them, whatever the arithmetic width of the implementation.  The extra subscriptions are described by
+    count and filter length only (`padsubs=<n>x<len>`): the implementation materialises them (4 GiB of 'a'), the model adds
+    n * (3 + len) (Proofs/Validate.lean: subscribeLengths5_pad and siblings).  Small paddings tie the padding itself;
+    the quick tier runs one 4 GiB case (a few filters of 64 MiB: the encoder does not look at filter lengths), the thorough tier
+    also 65541 filters of 65535 bytes, which the validators accept filter by filter."""
+    small = []
+    for n, ln in ((0, 5), (1, 1), (3, 10), (17, 100), (2, 65535), (5, 65536), (300, 1000)):
+        for pkt in ("subscribe pid=7 sub=x61:1:0:0:0", "unsubscribe pid=7 filters=x61"):
+            small.append(f"validate.outint mps=268435455 padsubs={n}x{ln} | {pkt}")
+            small.append(f"validate.outint mps=2000 padsubs={n}x{ln} | {pkt}")
+            for v in (5, 311):
+                small.append(f"encode.head v={v} padsubs={n}x{ln} | {pkt}")
+    huge = ["encode.head v=311 padsubs=64x67108864 | subscribe pid=7 sub=x61:1:0:0:0"]
+    if tier != "quick":
+        huge += ["encode.head v=5 padsubs=64x67108864 | subscribe pid=7 sub=x61:1:0:0:0",
+                 "encode.head v=311 padsubs=64x67108864 | unsubscribe pid=7 filters=x61",
+                 "encode.head v=5 padsubs=64x67108864 | unsubscribe pid=7 filters=x61",
+                 "validate.outint mps=268435455 padsubs=65541x65535 | subscribe pid=7 sub=x61:1:0:0:0",
+                 "validate.outint mps=268435455 padsubs=65541x65535 | unsubscribe pid=7 filters=x61",
+                 "validate.outint mps=268435455 padsubs=4200x65535 | subscribe pid=7 sub=x61:1:0:0:0"]
+    reqs = small + huge
+    impl = harness_batch(reqs)
+    model = driver_batch(reqs)
+    corr_ok, mon_ok = True, True
+    for r, a, b in zip(reqs, impl, model):
+        report.case(r)
+        report.traces_validated += 1
+        report.count("huge-subscribe." + a.split("=")[1].split(":")[0].split(" ")[0])
+        if a != b:
+            corr_ok = False
+            report.add_finding(Finding(prop, "corr:huge-subscribe", {"clause": "model-vs-impl", "verb": r.split(" ")[0]},
+                                       "lengths of a padded SUBSCRIBE / UNSUBSCRIBE: implementation and model disagree", [r, "# impl:  " + a, "# model: " + b], has_input=False))
+        # independent arithmetic on the request itself
+        n, ln = (int(x) for x in r.split("padsubs=")[1].split(" ")[0].split("x"))
+        sub = " | subscribe" in r
+        v5 = "v=311" not in r
+        per = (3 if sub else 2) + ln
+        base = 2 + (1 if v5 else 0) + ((3 if sub else 2) + 1)
+        rl = base + n * per
+        if a.startswith("res=ok") and rl > (1 << 28) - 1:
+            mon_ok = False
+            report.add_finding(Finding(prop, "mon:huge-subscribe", {"clause": "oversize-accepted", "verb": r.split(" ")[0]},
+                                       f"a {'SUBSCRIBE' if sub else 'UNSUBSCRIBE'} with a remaining length of {rl} bytes - more than the fixed header can express - "
+                                       + ("passes send-time validation" if r.startswith("validate") else "is encoded, with the truncated remaining length " + a.split("hdr=")[-1]), [r, "# impl: " + a]))
+    report.obligation("corr:huge-subscribe", "correspondence", corr_ok, f"{len(reqs)} padded SUBSCRIBE / UNSUBSCRIBE packets up to 4 GiB")
+    report.obligation("mon:huge-subscribe", "monitor", mon_ok, "accepted / encoded => the remaining length is expressible (independent arithmetic)")
